@@ -330,7 +330,80 @@ fn deep_psbt(w: &RWorld, shape: usize, depth: usize, tap: bool) -> Option<(Vec<u
 
 pub const N_PSBT_DEEP: u64 = 14;
 
+/// Script fragments around a key hash: `form` 0 = c:pk_h alone, 1 = and_v(v:pkh(U), pk(K0)),
+/// 2 = or_d(pk(K0), pkh(U)), 3 = and_v(v:pk(K0), pkh(U))
+pub fn pkh_script(w: &RWorld, u: usize, form: usize) -> Vec<u8> {
+    let h = w.w.pks[u].pubkey_hash().to_raw_hash();
+    let pkh: Vec<u8> = [&[0x76u8, 0xa9, 0x14][..], h.as_ref(), &[0x88, 0xac]].concat();
+    let pkhv: Vec<u8> = [&[0x76u8, 0xa9, 0x14][..], h.as_ref(), &[0x88, 0xad]].concat();
+    let k0 = w.w.key_bytes(0, false);
+    let pk0: Vec<u8> = [&[k0.len() as u8][..], &k0, &[0xac]].concat();
+    let pk0v: Vec<u8> = [&[k0.len() as u8][..], &k0, &[0xad]].concat();
+    match form {
+        0 => pkh,
+        1 => [pkhv, pk0].concat(),
+        2 => [pk0, vec![0x73, 0x64], pkh, vec![0x68]].concat(),
+        _ => [pk0v, pkh].concat(),
+    }
+}
+
+/// DIRECTED class (found by the thorough tier, /repo 8a94baa9): a wsh / sh(wsh) (or sh) input
+/// whose script holds a raw key hash that partial_sigs resolves to an UNCOMPRESSED key
+fn pkh_psbt(w: &RWorld, u: usize, form: usize, wrap: usize, in_bip32: bool) -> Option<Vec<u8>> {
+    let ds = DummySat { w, keys: !0, pre: !0, lt: 0, seq: 0, big: vec![] };
+    let script = ScriptBuf::from_bytes(pkh_script(w, u, form));
+    let mut inp = bitcoin::psbt::Input::default();
+    let spk = match wrap {
+        0 => {
+            inp.witness_script = Some(script.clone());
+            script.to_p2wsh()
+        }
+        1 => {
+            inp.witness_script = Some(script.clone());
+            inp.redeem_script = Some(script.to_p2wsh());
+            script.to_p2wsh().to_p2sh()
+        }
+        _ => {
+            inp.redeem_script = Some(script.clone());
+            script.to_p2sh()
+        }
+    };
+    inp.partial_sigs.insert(w.w.pks[u], ds.ecdsa());
+    inp.partial_sigs.insert(w.w.pks[0], ds.ecdsa());
+    if in_bip32 {
+        inp.bip32_derivation.insert(w.w.pks[u].inner, (bitcoin::bip32::Fingerprint::from([1, 2, 3, 4]), bitcoin::bip32::DerivationPath::from_str("m/0").unwrap()));
+    }
+    let prev = prev_tx(&spk, 0, 1, 11);
+    inp.witness_utxo = Some(prev.output[0].clone());
+    inp.non_witness_utxo = Some(prev.clone());
+    let tx = Transaction {
+        version: bitcoin::transaction::Version::TWO,
+        lock_time: absolute::LockTime::ZERO,
+        input: vec![TxIn { previous_output: OutPoint { txid: prev.compute_txid(), vout: 0 }, script_sig: ScriptBuf::new(), sequence: Sequence::from_consensus(0xffff_fffd), witness: Witness::new() }],
+        output: vec![TxOut { value: Amount::from_sat(1000), script_pubkey: ScriptBuf::from_bytes(vec![0x51]) }],
+    };
+    let mut psbt = Psbt::from_unsigned_tx(tx).ok()?;
+    psbt.inputs[0] = inp;
+    Some(psbt.serialize())
+}
+
+pub const N_PSBT_PKH: u64 = 2 * 4 * 3 * 2; // uncompressed key x script form x wrapping x in bip32_derivation?
+/// the minimised PSBT of the thorough-tier finding (regen 1:92935), kept as a regression input
+const CORPUS_PKLEN: &str = include_str!("corpus_psbt_pklen.hex");
+
 pub fn g_psbt(w: &RWorld, rng: &mut Rng, _idx: u64) -> (Input, &'static str) {
+    if _idx == N_PSBT_DEEP {
+        if let Some(b) = gen::unhex(CORPUS_PKLEN.trim()) {
+            return (Input::Psbt { psbt: b, idx: usize::MAX, desc: String::new() }, "corpus-raw-pkh-uncompressed");
+        }
+    }
+    if _idx > N_PSBT_DEEP && _idx <= N_PSBT_DEEP + N_PSBT_PKH {
+        let j = (_idx - N_PSBT_DEEP - 1) as usize;
+        let (u, form, wrap, bip) = (6 + j % 2, (j / 2) % 4, (j / 8) % 3, j / 24 == 1);
+        if let Some(b) = pkh_psbt(w, u, form, wrap, bip) {
+            return (Input::Psbt { psbt: b, idx: 0, desc: String::new() }, "raw-pkh-uncompressed-key");
+        }
+    }
     if _idx < N_PSBT_DEEP {
         // (shape, depth, taproot?) : IF-bearing shapes, the pk-cored andor chain is finalizable
         let table: [(usize, usize, bool); 14] = [
